@@ -156,6 +156,17 @@ def run(ctx):
                                                                                             if zero else '')))
         else:
             ctx.ok('R-REFTIME', 'shift', where, 'month, day, hour, minute and second of the reference on all %d path(s)' % len(forms))
+        # the fields of the reference are put into a UTC datetime: a reference with another UTC offset has to be converted first
+        calbr = [st for st in iter_stmts(fn.body) if isinstance(st, ast.If) and '_calendaryearlike' in norm(st.test)]
+        if not calbr:
+            ctx.undec('R-REFTIME', 'offset', where, 'fixed-length calendar branch not found')
+        else:
+            btxt = ' ; '.join(norm(s2) for s2 in iter_stmts(calbr[0].body))
+            if 'refdate.astimezone(' in btxt or 'utcoffset' in btxt:
+                ctx.ok('R-REFTIME', 'offset', where, 'reference converted to UTC before its fields are used')
+            else:
+                ctx.violation(Finding('R-REFTIME', FILES, q, calbr[0], 'the month ... second of the reference date are copied into a UTC datetime without converting the reference to UTC: '
+                                      '"hours since 2000-01-01 00:00:00-0600" in a 365/366-day calendar decodes offset 0 as 00:00 UTC instead of 06:00 UTC (the standard calendars keep the offset)'))
     # ---- R-CALTABLE
     cal = None
     for n in walk_expr(fn):
